@@ -41,6 +41,8 @@ func Custom(v any) (*Node, error) {
 			kids = append(kids, n)
 		}
 		return refcbor.NArr(kids...), nil
+	case cbor.ByteString:
+		return refcbor.NBstr([]byte(x)), nil
 	case time.Time:
 		return refcbor.NInt(x.Unix()), nil
 	case big.Int:
